@@ -281,6 +281,51 @@ def run(ctx):
              'delete_cron_trigger does not return the affected row count',
              ctx.loc(df))
 
+    # ---- R5 the expected value is the one the processor listed; the advance is
+    # committed on its own; times are UTC ----------------------------------------------
+    r5 = ctx.rule('R5', 'the compare-and-swap expects the row as it was '
+                  'listed as due (not re-read), the advance commits before '
+                  'the workflow is started, next times are computed in UTC',
+                  'GD/WMW')
+    tp = ad.params[0]
+    rebind = [x for x in own_nodes(ad.node)
+              if isinstance(x, (ast.Assign, ast.AugAssign, ast.AnnAssign)) and
+              any(isinstance(t_, ast.Name) and t_.id == tp
+                  for t_ in (x.targets if isinstance(x, ast.Assign)
+                             else [x.target]))]
+    refresh = [c for c in own_nodes(ad.node) if isinstance(c, ast.Call) and
+               U.call_name(c) in ('refresh', 'expire_all', 'expire') and
+               any(tp in U.names_in(a) for a in c.args)]
+    r5.check(not rebind and not refresh,
+             ctx.construct(ad, extra='expected value from the due list'),
+             'advance_cron_trigger re-reads the trigger (%s) before the '
+             'conditional update: the expected next_execution_time is then '
+             'always the current one, a processor working from a stale list '
+             'never loses the race and the occurrence fires twice'
+             % [norm(x) for x in rebind + refresh][:1], ctx.loc(ad))
+    TX = ('start_tx', 'commit_tx', 'end_tx', 'rollback_tx', 'transaction')
+    for g in (pc, ad):
+        tx = [c for c in own_nodes(g.node) if isinstance(c, ast.Call) and
+              U.call_name(c) in TX]
+        r5.check(not tx, ctx.construct(g, extra='advance commits on its own'),
+                 'the processor opens a transaction of its own (%s) around '
+                 'the advance / the start: the advance is no longer durable '
+                 'before the workflow is handed to the engine, so a fault '
+                 'after the hand-off rolls it back and the same occurrence '
+                 'fires again' % [norm(c) for c in tx][:1], ctx.loc(g))
+    from mstatic.rules import shared as _sh
+    _sh.utc_time_sources(ctx, r5, ['mistral.services.triggers',
+                                   'mistral.services.periodic'], 2)
+    gn = prog.func(TRG + '.get_next_execution_time')
+    rets = [x for x in own_nodes(gn.node) if isinstance(x, ast.Return)]
+    r5.check(len(rets) == 1 and U.phas(
+        rets[0].value,
+        'croniter.croniter(%s, %s).get_next(datetime.datetime)'
+        % tuple(gn.params[:2])),
+        ctx.construct(gn, extra='next occurrence as a naive UTC datetime'),
+        'the next execution time is not croniter(pattern, start).get_next('
+        'datetime) of the (UTC) start time', ctx.loc(gn))
+
     # ---- R3 time and count arithmetic shape -----------------------------------
     r3 = ctx.rule('R3', 'next time moves forward from max(now, previous); '
                   'count decrements and deletes at zero', 'GD')
